@@ -22,6 +22,13 @@ def configs(tier):
     for kind in ("ode", "statio1", "statio2", "nonstatio1", "nonstatio2", "nonstatio1_nocart", "param"):
         for (n, b) in ((N, 2), (3, 3), (3, 2)) if tier == "quick" else ((N, 2), (N, 3), (3, 3), (5, 2), (3, 2)):
             out.append(dict(kind=kind, n=n, b=b, part="uniform", x64=False))
+    # grid sampling with symbolic (hence also non-square, negative, non-unit) domain bounds: stored values, shapes and batches
+    for kind, n, b in (("ode", 4, 2), ("statio1", 3, 2), ("statio2", 4, 2), ("nonstatio2", 4, 2), ("param", 3, 2)):
+        out.append(dict(kind=kind, n=n, b=b, part="uniform", method="grid", x64=False))
+    # generators built for residual-adaptive refinement (pre-allocated, partly inactive stores): every stored row is a point of the domain,
+    # and a batch that runs past the active part still holds points of the domain
+    for kind in ("ode", "statio1", "nonstatio1"):
+        out.append(dict(kind=kind, n=4, b=3, part="uniform", rar=True, x64=False))
     doms = [(0.0, 1.0), (-2.0, 0.5)] if tier == "quick" else [(0.0, 1.0), (-2.0, 0.5), (0.1, 0.3), (-7.0, -3.0)]
     for gen in ("ode", "statio1", "nonstatio_t", "param", "statio2"):
         for lo, hi in doms:
@@ -31,21 +38,25 @@ def configs(tier):
 
 
 # ------------------------------------------------------------------------------------------ uniform part
-def build_uniform(kind, n, b):
+def build_uniform(kind, n, b, method="uniform", rar=False):
     from jinns.data._DataGenerators import DataGeneratorODE, CubicMeshPDEStatio, CubicMeshPDENonStatio, DataGeneratorParameter
     d = 2 if kind.endswith("2") else 1
+    rp = {"start_iter": 0, "update_every": 1, "sample_size_times": 2, "selected_sample_size_times": 1,
+          "sample_size_omega": 2, "selected_sample_size_omega": 1, "sample_size": 2, "selected_sample_size": 1} if rar else None
+    rk_t = dict(rar_parameters=rp, nt_start=2) if rar else {}
+    rk_x = dict(rar_parameters=rp, n_start=2) if rar else {}
     if kind == "ode":
-        return (lambda key, lo, hi: DataGeneratorODE(key, n, lo[0], hi[0], b, method="uniform")), 1, dict(store=lambda g: g.times)
+        return (lambda key, lo, hi: DataGeneratorODE(key, n, lo[0], hi[0], b, method=method, **rk_t)), 1, dict(store=lambda g: g.times)
     if kind in ("statio1", "statio2"):
         nb = None if d == 1 else 4 * n
         return (lambda key, lo, hi: CubicMeshPDEStatio(key=key, n=n, nb=(2 if d == 1 else nb), omega_batch_size=b, omega_border_batch_size=(2 if d == 1 else b),
-                                                        dim=d, min_pts=tuple(lo), max_pts=tuple(hi), method="uniform")), d, {}
+                                                        dim=d, min_pts=tuple(lo), max_pts=tuple(hi), method=method, **rk_x)), d, {}
     if kind.startswith("nonstatio"):
         cart = not kind.endswith("nocart")
         return (lambda key, lo, hi: CubicMeshPDENonStatio(key=key, n=n, nb=(2 if d == 1 else 4 * n), nt=n + 1, omega_batch_size=b,
                                                            omega_border_batch_size=(2 if d == 1 else b), temporal_batch_size=b, dim=d,
                                                            min_pts=tuple(lo[1:]), max_pts=tuple(hi[1:]), tmin=lo[0], tmax=hi[0],
-                                                           method="uniform", cartesian_product=cart)), d + 1, {}
+                                                           method=method, cartesian_product=cart, **rk_x, **(dict(nt_start=2) if rar else {}))), d + 1, {}
     if kind == "param":
         return None, 2, {}
     raise ValueError(kind)
@@ -55,6 +66,7 @@ def run(cfg, R):
     if cfg["part"] == "grid": return run_grid(cfg, R)
     if cfg["part"] == "grid_values": return run_grid_values(cfg, R)
     kind, n, b = cfg["kind"], cfg["n"], cfg["b"]
+    method = cfg.get("method", "uniform"); rar = cfg.get("rar", False)
     ncalls = 4 if R.tier == "quick" else 5
     R.note(stubs_=["jax.random.split -> fresh opaque keys", "jax.random.uniform -> minval+(maxval-minval)*U, 0<=U<1",
                    "jax.random.choice(replace=False) -> a[pi], pi arbitrary permutation"])
@@ -64,14 +76,14 @@ def run(cfg, R):
         nd = 2
         lo = jnp.array([0.0, 2.0]); hi = jnp.array([1.0, 3.5])
         def f(key, lo, hi):
-            g = DataGeneratorParameter(key, n, b, param_ranges={"nu": (lo[0], hi[0]), "mu": (lo[1], hi[1])})
+            g = DataGeneratorParameter(key, n, b, param_ranges={"nu": (lo[0], hi[0]), "mu": (lo[1], hi[1])}, method=method)
             g0 = g; outs = []
             for _ in range(ncalls):
                 g, bt = g.get_batch(); outs.append(bt)
             return g0, outs
         R.note(functions=["jinns.data.DataGeneratorParameter.__post_init__/generate_data/param_batch"])
     else:
-        ctor, nd, _ = build_uniform(kind, n, b)
+        ctor, nd, _ = build_uniform(kind, n, b, method, rar)
         lo = jnp.arange(nd) * 0.5 - 1.0; hi = jnp.arange(nd) * 0.25 + 1.0
         def f(key, lo, hi):
             g = ctor(key, lo, hi)
@@ -81,8 +93,8 @@ def run(cfg, R):
             return g0, outs
         R.note(functions=[{"ode": "jinns.data.DataGeneratorODE", "statio1": "jinns.data.CubicMeshPDEStatio", "statio2": "jinns.data.CubicMeshPDEStatio"}.get(kind, "jinns.data.CubicMeshPDENonStatio")
                           + ".__post_init__/generate_*_data/sample_in_*/get_batch", "jinns.data._DataGenerators.make_cartesian_product"])
-    name = f"{kind}/n{n}/b{b}/uniform"
-    tr = R.trace(name, f, (key, lo, hi), key=f"{kind}:uniform:raises", use_stubs=True)
+    name = f"{kind}/n{n}/b{b}/{method}" + ("/rar-store" if rar else "")
+    tr = R.trace(name, f, (key, lo, hi), key=f"{kind}:{method}:raises", use_stubs=True)
     if tr is None: return
     d = 2 if kind.endswith("2") else 1
     cart = not kind.endswith("nocart")
@@ -205,8 +217,9 @@ def run(cfg, R):
         return tw
 
     R.check(name, tr, goals, twin_fn=twins, extra_assume_fn=assume, validate=False,
-            hint_spec=[(r"_lo_", ("range", -3, -1)), (r"_hi_", ("range", 1, 3)), (r"a_1_", ("range", -3, -1)), (r"a_2_", ("range", 1, 3))],
-            key_fn=lambda prog, gname: f"{kind}:uniform:{gname.split('[')[0][:40]}")
+            # domains around 0, entirely positive and entirely negative, in turn (round r of the hinted refutation)
+            hint_spec=[(r"a_1_", ("alt", [("range", -3, -1), ("range", 1, 2), ("range", -7, -5)])), (r"a_2_", ("alt", [("range", 1, 3), ("range", 2.5, 4), ("range", -4, -2)]))],
+            key_fn=lambda prog, gname: f"{kind}:{method}{':rar-store' if rar else ''}:{gname.split('[')[0][:40]}")
 
 
 # ------------------------------------------------------------------------------------------ grid count (QF_FP)
